@@ -856,9 +856,9 @@ def generate(rng, tier, mult):
     registry = list(storage_registry)
     quick = tier == "quick"
     cases = [{"kind": "prep", "cleanup": False}, {"kind": "prep", "cleanup": True}]
-    n_pipe = (25 if quick else 400) * mult
-    n_mapc = (12 if quick else 250) * mult
-    n_req = (22 if quick else 330) * mult
+    n_pipe = (25 if quick else 330) * mult
+    n_mapc = (12 if quick else 200) * mult
+    n_req = (22 if quick else 270) * mult
     n_cls = (6 if quick else 40) * mult
     cap = 6 if quick else 12
     # construction level: pipelines of pipegen
